@@ -40,6 +40,9 @@ type Injected struct {
 	// AtFinalising, if set, makes the event fire when the Rollout persists this finalising task ("*" = any unfinished one)
 	// instead of at (AtStep, AtState): a second user action arriving while a cleanup sequence is in flight.
 	AtFinalising string `json:"atFinalising,omitempty"`
+	// AtBRState, if set, additionally requires the BatchRelease to be at batch AtStep-1 in this batch state (Upgrading |
+	// Verifying | Ready): events aimed at the hand-over between the two controllers.
+	AtBRState string `json:"atBRState,omitempty"`
 	// Immediate: the action is performed at the very instant the trigger state is observed (before any other actor
 	// moves); otherwise it is queued and competes with the controllers for the next scheduler slots.
 	Immediate bool `json:"immediate,omitempty"`
@@ -92,6 +95,9 @@ func (s *Scenario) Sig() string {
 		at := fmt.Sprintf("%d/%s", e.AtStep, e.AtState)
 		if e.AtFinalising != "" {
 			at = "fin:" + e.AtFinalising
+		}
+		if e.AtBRState != "" {
+			at += "/br:" + e.AtBRState
 		}
 		if e.Immediate {
 			at += "!"
